@@ -140,59 +140,9 @@ def run(prog: Program, res: Result) -> None:  # noqa: PLR0912, PLR0915
 
     # ------------------------------------------------------------------ R3 sibling loops
     res.rule("C18.R3", "Parser.parse and Parser.parse_block thread the trim carry identically: same arms, markup arms take left_trim from token.wc[-1], content resets it, the tag arm sets stream.trim_carry before dispatch and reads it after; Content.parse takes the right trim from every kind of markup token")
-    parser = prog.cls("liquid2.parser.Parser")
-    pa, pb = parser.methods.get("parse"), parser.methods.get("parse_block")
-    if pa is None or pb is None:
-        raise AnalysisError("Parser.parse / parse_block vanished")
+    from checks.shared import check_parser_trim_threading
 
-    def arms(fn: ast.FunctionDef) -> dict[str, list[str]]:
-        loop = next((n for n in ast.walk(fn) if isinstance(n, ast.While)), None)
-        if loop is None:
-            raise AnalysisError(f"no loop in {fn.name}")
-        out: dict[str, list[str]] = {}
-        node: ast.AST | None = next((s for s in loop.body if isinstance(s, ast.If)), None)
-        while isinstance(node, ast.If):
-            body = [norm(s, 300) for s in node.body if not (isinstance(s, ast.If) and "in end" in norm(s.test))]
-            out[norm(node.test)] = body
-            node = node.orelse[0] if len(node.orelse) == 1 and isinstance(node.orelse[0], ast.If) else None
-        tail = [norm(s, 300) for s in loop.body if not isinstance(s, ast.If)]
-        out["<loop tail>"] = tail
-        return out
-
-    aa, ab = arms(pa.node), arms(pb.node)
-    for key in sorted(set(aa) | set(ab)):
-        what = f"arm `{key}` identical in parse and parse_block"
-        if aa.get(key) == ab.get(key):
-            res.ok("C18.R3", f"{parser.file}:{pa.node.lineno} Parser.parse/parse_block", what, "; ".join(aa[key])[:120])
-        else:
-            res.fail("C18.R3", file=parser.file, line=pb.node.lineno, qualname="Parser.parse_block", construct=f"arm {key}: parse={aa.get(key)} parse_block={ab.get(key)}", message=f"the two parser loops disagree in arm `{key}`: text inside a block is trimmed differently from top-level text", what=what)
-    # arm contents
-    for fn, arm in ((pa, aa), (pb, ab)):
-        for key, body in arm.items():
-            if key == "<loop tail>" or "EOI" in key:
-                continue
-            what = f"{fn.name}: arm `{key}` threads the carry"
-            if "is_content_token" in key:
-                # after text only more text can follow without setting the carry: nothing is trimmed between two pieces of text
-                ok = any("left_trim=left_trim" in s for s in body) and "left_trim = WhitespaceControl.PLUS" in body
-            elif "is_tag_token" in key:
-                ok = body and body[0] == "stream.trim_carry = token.wc[-1]" and body[-1] == "left_trim = stream.trim_carry"
-            elif key.startswith("is_"):
-                ok = "left_trim = token.wc[-1]" in body
-            else:
-                continue
-            if ok:
-                res.ok("C18.R3", f"{parser.file}:{fn.node.lineno} Parser.{fn.name}", what, "; ".join(body)[:100])
-            else:
-                res.fail("C18.R3", file=parser.file, line=fn.node.lineno, qualname=f"Parser.{fn.name}", construct=f"{fn.name} arm {key}: {body}", message=f"arm `{key}` does not hand the right-hand marker of this markup to the next text", what=what)
-    # initial left trim
-    what = "parse starts from env.default_trim, parse_block from stream.trim_carry"
-    ia = [norm(s) for s in pa.node.body if isinstance(s, ast.Assign) and norm(s.targets[0]) == "left_trim"]
-    ib = [norm(s) for s in pb.node.body if isinstance(s, ast.Assign) and norm(s.targets[0]) == "left_trim"]
-    if len(ia) == 1 and ia[0].endswith("default_trim") and ib == ["left_trim = stream.trim_carry"]:
-        res.ok("C18.R3", f"{parser.file}:{pa.node.lineno} Parser", what, "declared difference only")
-    else:
-        res.fail("C18.R3", file=parser.file, line=pb.node.lineno, qualname="Parser.parse_block", construct=f"initial left_trim parse={ia} parse_block={ib}", message="the first text of a block does not take its left trim from the tag that opened the block", what=what)
+    check_parser_trim_threading(prog, res, "C18.R3")
     from checks.shared import check_content_right_trim
 
     check_content_right_trim(prog, res, "C18.R3")
@@ -296,6 +246,68 @@ def run(prog: Program, res: Result) -> None:  # noqa: PLR0912, PLR0915
             else:
                 res.ok("C18.R6", f"{lexer_cls.file}:{line} Lexer.{label}", what, "only \\Z / look-ahead on markup openers")
     res.floor("C18.R6", "lexer patterns parsed", n_pat, 20)
+
+    # ------------------------------------------------------------------ R8 every marker position accepts every marker
+    res.rule("C18.R8", "every whitespace-control position of every markup pattern accepts exactly the markers WC_MAP knows (`-`, `+`, `~`, or none): a marker class that lacks one turns `{%~ # … %}` into literal text, so replacing one marker by another changes more than whitespace (character classes of the groups named *WC*, read with re._parser, compared with the keys of Lexer.WC_MAP)")
+    wc_map = lexer_cls.class_attrs.get("WC_MAP")
+    if not isinstance(wc_map, ast.Dict):
+        raise AnalysisError("Lexer.WC_MAP vanished")
+    markers = {k.value for k in wc_map.keys if isinstance(k, ast.Constant) and isinstance(k.value, str) and k.value}
+    n_wc = 0
+
+    def _marker_groups(items, groupnames: dict[int, str]):  # noqa: ANN001, ANN202
+        """(group name, set of accepted characters, optional?) for every named group whose name mentions WC."""
+        for op, av in items:
+            o = str(op)
+            if o == "SUBPATTERN":
+                gid, _a, _b, sub = av
+                nm = groupnames.get(gid, "")
+                if "WC" in nm.upper():
+                    chars: set[str] = set()
+                    optional = False
+                    for op2, av2 in sub.data:
+                        o2 = str(op2)
+                        rep = av2[2].data if o2 in ("MAX_REPEAT", "MIN_REPEAT") else None
+                        if rep is not None and av2[0] == 0:
+                            optional = True
+                        for op3, av3 in rep if rep is not None else [(op2, av2)]:
+                            if str(op3) == "IN":
+                                chars |= {chr(x[1]) for x in av3 if str(x[0]) == "LITERAL"}
+                            elif str(op3) == "LITERAL":
+                                chars.add(chr(av3))
+                    yield nm, chars, optional
+                yield from _marker_groups(sub.data, groupnames)
+            elif o in ("MAX_REPEAT", "MIN_REPEAT"):
+                yield from _marker_groups(av[2].data, groupnames)
+            elif o == "BRANCH":
+                for alt in av[1]:
+                    yield from _marker_groups(alt.data, groupnames)
+            elif o in ("ASSERT", "ASSERT_NOT"):
+                yield from _marker_groups(av[1].data, groupnames)
+
+    for name, v in sorted(lexer_cls.class_attrs.items()):
+        pats2: list[tuple[str, str, int]] = []
+        if isinstance(v, ast.Call) and norm(v.func) == "re.compile" and v.args:
+            pats2.append((name, "".join(a.value for a in ast.walk(v.args[0]) if isinstance(a, ast.Constant) and isinstance(a.value, str)), v.lineno))
+        elif isinstance(v, ast.Dict):
+            for k, val in zip(v.keys, v.values):
+                pat = "".join(a.value for a in ast.walk(val) if isinstance(a, ast.Constant) and isinstance(a.value, str))
+                if pat and isinstance(k, ast.Constant):
+                    pats2.append((f"{name}[{k.value!r}]", pat, val.lineno))
+        for label, pat, line in pats2:
+            try:
+                parsed = _sp.parse(pat)
+            except Exception:  # noqa: BLE001
+                continue
+            names = {gid: nm for nm, gid in parsed.state.groupdict.items()}
+            for gname, chars, optional in _marker_groups(parsed.data, names):
+                n_wc += 1
+                what = f"Lexer.{label}: marker group {gname} accepts {sorted(markers)} or nothing"
+                if chars == markers and optional:
+                    res.ok("C18.R8", f"{lexer_cls.file}:{line} Lexer.{label}", what, f"[{''.join(sorted(chars))}]?")
+                else:
+                    res.fail("C18.R8", file=lexer_cls.file, line=line, qualname=f"Lexer.{label}", construct=f"Lexer.{label}: marker group {gname} accepts {sorted(chars)}{'' if optional else ' (not optional)'}", message=f"the whitespace-control position {gname} of Lexer.{label} accepts {sorted(chars)}{'' if optional else ' and is not optional'} where WC_MAP knows {sorted(markers)}: markup written with a missing marker is not recognised as markup at all and comes out as literal text", what=what)
+    res.floor("C18.R8", "marker groups in the lexer's patterns", n_wc, 10)
 
     # ------------------------------------------------------------------ R5 text is carried character for character
     res.rule("C18.R5", "with no trimming in force literal text is reproduced character for character: neither the output buffers nor the loaders' file reads translate line endings (shared with C06.R2 / C20.R5)")
